@@ -190,6 +190,27 @@ func regPair[S, B signal.SignalTypes](s, b string) {
 		}
 		pair[op][s+"/"+b] = p
 	}
+	put("poolCyclesTwoTypes", func(c *Case) func() {
+		// two pools of the same shape for two element types (the same type twice when S is B) are
+		// alive together and their get/put cycles interleave: each stays a steady-state cycle
+		a := signal.Allocator{Channels: c.C, Length: 0, Capacity: c.F}
+		ps, pb := signal.PoolAlloc[S](a), signal.PoolAlloc[B](a)
+		p1, p2 := &ps, &pb
+		nested := c.Window
+		return func() {
+			x := p1.Get()
+			x.AppendSample(1)
+			if !nested {
+				p1.Put(x)
+			}
+			y := p2.Get()
+			y.AppendSample(1)
+			p2.Put(y)
+			if nested {
+				p1.Put(x)
+			}
+		}
+	})
 	put("write", func(c *Case) func() {
 		buf := mkBuf[B](c)
 		in := make([]S, c.C*c.F+1)
@@ -268,7 +289,7 @@ func init() {
 }
 
 var SingleOps = []string{"sampleGetSet", "appendSampleBelowCapacity", "appendSampleAtCapacity", "appendWithinCapacity", "appendWithinCapacityPartialFrames", "appendSiblingWindowWithinCapacity", "appendSelfWithinCapacity", "channelViewGetSet", "poolCycle", "poolCycleAcrossCopies", "sliceEscaping", "sliceLocal"}
-var PairOps = []string{"write", "read", "writeStriped", "readStriped"}
+var PairOps = []string{"write", "read", "writeStriped", "readStriped", "poolCyclesTwoTypes"}
 
 func Check(c *Case) (res kit.Result) {
 	if c.C < 1 || c.C > 8 || c.F < 0 || c.F > 4096 {
